@@ -278,6 +278,28 @@ def run(chk):
                        f["host"] == ("param", 3, "host") and desc_contains(f["data"], lambda y: y[0] == "param" and y[2] == "value") and desc_contains(f["mime_type"], lambda y: y[0] == "param" and y[2] == "mime_type"),
                        f"{ {k: panics.short_desc(v) for k, v in f.items()} }")
                 chk.ob("R3.stored", C + "::set", "cache_time <- the current clock", desc_contains(f["cache_time"], lambda y: y[0] == "call" and y[1].endswith("SystemTime::now")), "")
+        # R3: whatever reaches set is stored — a return without the push is allowed only where the value cannot fit even into an
+        # empty cache (value.len() > cache_limit; `>=` would silently refuse an item of exactly the limit and leave the old entry in place)
+        push_blocks = [x for x, _ in pushes]
+        for rb_ in core.return_blocks(b):
+            w_ = core.must_pass(b, [0], [rb_], through_nodes=push_blocks, after_from=False)
+            if w_ is None:
+                continue
+            # the return that is reached without storing: what is known there?
+            pm_ = b.pred_map()
+            preds_ = pm_.get(rb_, []) if isinstance(pm_, dict) else pm_[rb_]
+            bypass = [x for x in b.reachable([0], removed_nodes=set(push_blocks)) if x in preds_ or x == rb_]
+            excused = False
+            for x in bypass or [rb_]:
+                for (a_, op_, r_) in panics.cmp_facts(prog, b, x):
+                    la = desc_contains(a_, lambda y: y[0] == "call" and y[1].endswith("::len") and y[2] and desc_contains(y[2][0], lambda z: z[0] == "param" and z[2] == "value"))
+                    lr = desc_contains(r_, lambda y: y[0] == "call" and y[1].endswith("::len") and y[2] and desc_contains(y[2][0], lambda z: z[0] == "param" and z[2] == "value"))
+                    fa = desc_contains(a_, lambda y: y[0] == "field" and y[2] == ix["cache_limit"])
+                    fr = desc_contains(r_, lambda y: y[0] == "field" and y[2] == ix["cache_limit"])
+                    if (la and fr and op_ == ">") or (fa and lr and op_ == "<"):
+                        excused = True
+            chk.ob("R3.stored", C + "::set", "every call of set stores the value (a return without push_back only under value.len() > cache_limit)", excused,
+                   "set can return without storing a value that fits: the next lookup misses, or finds the older bytes of the same key", path=w_, where=b.where(rb_))
         for sb, d in subs + adds:
             ops = pops + [x for x, _ in rems] + [x for x, _ in pushes]
             # the update and the queue operation may sit in one block (statement, then the call terminator)
